@@ -38,6 +38,7 @@ impl From<VariantError> for LintError {
     fn from(e: VariantError) -> Self {
         match e {
             VariantError::DivisionByZero => Self::DivisionByZero,
+            VariantError::OutOfStringSpace => Self::OutOfStringSpace,
             VariantError::Overflow => Self::Overflow,
             VariantError::TypeMismatch => Self::TypeMismatch,
         }
